@@ -32,6 +32,8 @@ func init() {
 			Req: []string{"ok(oidc.CheckIssuer($r0, $v.Issuer))", "ok(oidc.CheckExpiration($r0, $v.Offset))", "ok(oidc.CheckSignature(_, _, _, $r0, $v.SupportedSignAlgs, $v.KeySet))"}},
 		{ID: "E8.access-token-verifier-per-request-issuer", Fn: "op.(*Provider).AccessTokenVerifier", P: []string{"o", "ctx"}, Kind: "ret any", Pat: "ret(op.NewAccessTokenVerifier(op.IssuerFromContext($ctx), $o.accessTokenKeySet, __))", Max: 1, Only: true},
 		{ID: "E8.access-token-verifier-per-request-issuer.only", Fn: "op.(*Provider).AccessTokenVerifier", Kind: "ret any", Max: 1},
+		{ID: "E8.access-token-verifier.constructor-binds-configuration", Fn: "op.NewAccessTokenVerifier", P: []string{"issuer", "keySet"}, Kind: "ret any", Pat: "ret(&AccessTokenVerifier{Issuer: $issuer, KeySet: $keySet})", Max: 1, Only: true},
+		{ID: "E8.access-token-verifier.constructor-binds-configuration.only", Fn: "op.NewAccessTokenVerifier", Kind: "ret any", Max: 1},
 		// introspection: the Active store is the only one and needs lookup + storage success (caller authentication: the C05 obligations E1.introspect.* and the authentication guarantees are re-evaluated here as E1.introspect.caller.*)
 		{ID: "E1.introspect.active.provider", Fn: "op.Introspect", Kind: "store", Pat: "store($resp.Active, true)", Max: 1,
 			Req: []string{"tokenResolved($tokenID, $subject, $token)", "ok(_.SetIntrospectionFromToken(_, $resp, $tokenID, $subject, _))"}},
